@@ -582,7 +582,7 @@ func init() {
 		Technique: "recorded client-boundary histories checked for linearizability (porcupine v1.3.0) against a sequential worldID->feature->tags model; deadlock by goroutine quiescence; race detector; lock-state probes at the wrapped world's mutating methods",
 		Rule: "case = script of 2-4 clients x 3-8 requests (Evaluate read of all tracked features | Evaluate change with unique tag values: add-tag, multi-feature add-tags, remove-tag, add-point | " +
 			"DeleteWorld | ListWorlds) over 1-3 world IDs, with a delay script (none/Gosched/30us/300us) for the wrapped Worlds and MutableWorld method boundaries; each script is run 3 times " +
-			"against a fresh service; final reads of every world appended; sub-workloads by case index: main (4/8), firstuse (all clients change each fresh world at the same moment), rmw (read-dependent changes), awc (add-world-with-change), ui (Evaluator.EvaluateString); " +
+			"against a fresh service; final reads of every world appended; sub-workloads by case index: main (3/8), abandon (1-3 clients take a prefix of a map-parallel over a search, cores 2-4, while 0-2 clients change the features searched; observed by the lock-state probe, the race detector and process-fatal errors), firstuse (all clients change each fresh world at the same moment), rmw (read-dependent changes), awc (add-world-with-change), ui (Evaluator.EvaluateString); " +
 			"distinct = distinct (script, recorded event order of the first run); non-trivial = two requests of different clients on the same world overlapped in time and one of them was a change or a delete",
 		Assumptions: []string{"porcupine's checker is correct", "the history is recorded at the client boundary with one atomic counter as clock",
 			"one Evaluate is modelled as two atomic steps (world lookup, then access), which is the lock structure of the service"},
@@ -591,10 +591,14 @@ func init() {
 		MaxParallel: 16,
 		CaseCap:     15 * time.Minute,
 		Required: []string{"histories_checked", "linearizable", "overlap_change_change", "overlap_change_read", "overlap_delete_evaluate", "mutations_under_write_lock",
-			"boundary_delays", "sub_main", "sub_firstuse", "sub_rmw", "sub_awc", "sub_ui", "gen_multi_feature_change", "final_state_has_concurrent_writes"},
+			"boundary_delays", "sub_main", "sub_firstuse", "sub_rmw", "sub_awc", "sub_ui", "sub_abandon", "abandoned_results", "abandon_changes", "gen_multi_feature_change", "final_state_has_concurrent_writes"},
 		Run: func(c *core.Ctx) {
-			sub := []string{"main", "main", "firstuse", "main", "main", "rmw", "awc", "ui"}[c.Index%8]
+			sub := []string{"main", "main", "firstuse", "main", "abandon", "rmw", "awc", "ui"}[c.Index%8]
 			c.Count("sub_" + sub)
+			if sub == "abandon" {
+				c40abandon(c)
+				return
+			}
 			script := c40genScript(c.R, sub, c)
 			if c.Index < 3 {
 				c.Sample(script.describe())
